@@ -103,8 +103,12 @@ Theorem C16_mask_in_bounds : forall hash cap k, cap = 2 ^ k -> N.land hash (cap 
 Proof. exact mask_in_bounds. Qed.
 Print Assumptions C16_mask_in_bounds.
 
-(* 9. not a memory fact but visible in the same code: a LIST / STRUCT sort key reaches `unimplemented!()`
-   (findings/C16.json: ORDER BY a list column panics instead of failing cleanly) *)
-Theorem C16_sort_layout_list_panics : sort_layout_of [PI32; PList] = Panic.
-Proof. exact sort_layout_list_panics. Qed.
-Print Assumptions C16_sort_layout_list_panics.
+(* 9. not a memory fact but visible in the same code: a LIST / STRUCT sort key is refused with an error (repair
+   59d348515; before it the width function's `unimplemented!()` panicked) and the sort layout never panics *)
+Theorem C16_sort_layout_list_errs : sort_layout_of [PI32; PList] = Err.
+Proof. exact sort_layout_list_errs. Qed.
+Print Assumptions C16_sort_layout_list_errs.
+
+Theorem C16_sort_layout_never_panics : forall ts, sort_layout_of ts <> Panic.
+Proof. exact sort_layout_never_panics. Qed.
+Print Assumptions C16_sort_layout_never_panics.
